@@ -18,7 +18,29 @@ def mutants():
     return "\n".join(rows)
 
 
+def asbuilt():
+    sw = {}
+    f = os.path.join(ROOT, "selftest", "sweeps.jsonl")
+    if os.path.exists(f):
+        for l in open(f):
+            r = json.loads(l)
+            sw.setdefault((r["check"], r["tier"]), []).append(r)
+    man = {c["property_id"]: c for c in json.load(open(os.path.join(ROOT, "MANIFEST.json")))["checks"]}
+    rows = ["| id | level | quick: executions / distinct / wall (evidence file) | monitors with floors | thorough sweeps (seed: executions, wall, verdict) | quick seed sweeps |", "|---|---|---|---|---|---|"]
+    for i in range(1, 21):
+        c = "C%02d" % i
+        ev = json.load(open(os.path.join(ROOT, "evidence", c + ".json")))
+        cov = ev["coverage"]
+        th = "; ".join("s%d: %s, %ss, %s" % (r["seed"], r["executions"], r["wall_s"], "HELD" if r["exit"] == 0 else "exit %d" % r["exit"]) for r in sw.get((c, "thorough"), [])) or "-"
+        qs = ", ".join("s%d:%s" % (r["seed"], "HELD" if r["exit"] == 0 else "exit %d" % r["exit"]) for r in sw.get((c, "quick"), [])) or "-"
+        lvl = man[c].get("level_claimed", man[c].get("level", ""))
+        lvl = lvl.get("category") if isinstance(lvl, dict) else lvl
+        rows.append("| %s | %s | %s / %s / %ss | %d | %s | %s |" % (c, lvl, cov["evaluations"], cov["distinct_nontrivial"], ev.get("wall_s"), len(cov.get("monitor_hits", {})), th, qs))
+    return "\n".join(rows)
+
+
 blocks = {
+    "asbuilt": asbuilt(),
     "findings": out(["python3", "tools/findings_table.py"]),
     "seeded": out(["python3", "tools/seedtable.py"]),
     "mutants": mutants(),
